@@ -337,6 +337,33 @@ def _sequences(acc, P, _parser, w, st):
                          'sys': has_sys, 'dom': has_dom, 'how': how}, want,
                         got, 'sequence')
                 acc.outcome('same-creds-%s' % want)
+    # (f) a registered policy that declares its scope types as an EMPTY list:
+    # no scope types are declared, the check alone decides
+    if not st:
+        for has_sys, has_dom in scopes3:
+            for role, allow in (('r', True), ('other', False)):
+                enf = P.Enforcer(conf)
+                enf.register_default(P.RuleDefault('p', 'role:r',
+                                                   scope_types=[]))
+                enf.load_rules()
+                for rep in ('dict', 'context', 'values'):
+                    creds = make_creds(rep, has_sys, has_dom,
+                                       not (has_sys or has_dom),
+                                       'system_scope', 'missing', role)
+                    acc.ev()
+                    got = outcome(enf, 'p', creds)
+                    want = 'allow' if allow else 'deny'
+                    acc.case('sequence', True)
+                    if got != want:
+                        acc.violation(
+                            'sequence|empty-scope-types|got=%s' % got,
+                            'policy registered with scope_types=[]: %s for a '
+                            '%s token holding role %r, expected %s' %
+                            (got, 'system' if has_sys else 'domain' if has_dom
+                             else 'project', role, want),
+                            {'sys': has_sys, 'dom': has_dom, 'rep': rep,
+                             'role': role}, want, got, 'sequence')
+                    acc.outcome('empty-scope-types-%s' % want)
     acc.sample('sequence', {'scope_types': st})
 
 
